@@ -1566,6 +1566,15 @@ impl Check for C08 {
             scn.params.insert("c08_range".into(), 1.0);
             return scn;
         }
+        // (4c) the user's validity checker unwinds at its k-th call inside a solve; the caller
+        // catches it and goes on using the planner: every later call returns normally and a
+        // later successful solve still answers the installed problem (see panic_resume)
+        if i % 16 == 3 {
+            let o2 = GenOpts { families: vec!["open", "balls", "balls", "shell_door"], min_frac: 0.01, ..Default::default() };
+            let mut scn = panic_resume("C08", seed, index, o2);
+            scn.params.insert("c08_range".into(), 4.0);
+            return scn;
+        }
         // (4b) a narrow rotation cone (5 to 15 degrees): rejection sampling needs thousands of
         // draws per sample — slow but legal, and sampling must still not fail
         if i % 2003 == 1 {
@@ -1770,6 +1779,9 @@ impl Check for C08 {
                         (Res::Path(_), "Ok|Timeout|NoSolutionFound") => true,
                         (Res::Err(Timeout), "Ok|Timeout|NoSolutionFound") => true,
                         (Res::Err(NoSolutionFound), "Ok|Timeout|NoSolutionFound") => prm,
+                        // an injected unwinding of the user's checker: the caller caught it;
+                        // this call is not judged, the ones after it are
+                        (Res::UserPanic, _) => true,
                         _ => false,
                     };
                     if !ok {
